@@ -3,13 +3,18 @@ S = "serving.py"
 
 _COPY = (
     "                if read + n > len(buf):\n"
-    "                    buf[read:] = self._rfile.read(len(buf) - read)\n"
-    "                    self._len -= len(buf) - read\n"
-    "                    read = len(buf)\n"
-    "                else:\n"
-    "                    buf[read : read + n] = self._rfile.read(n)\n"
-    "                    self._len -= n\n"
-    "                    read += n\n"
+    "                    n = len(buf) - read\n"
+    "\n"
+    "                data = self._rfile.read(n)\n"
+    "\n"
+    "                # A short read means the stream ended inside the chunk. Don't\n"
+    "                # splice it into buf, that would resize the caller's buffer.\n"
+    "                if len(data) != n:\n"
+    "                    raise OSError(\"Unexpected end of chunked data\")\n"
+    "\n"
+    "                buf[read : read + n] = data\n"
+    "                self._len -= n\n"
+    "                read += n\n"
 )
 _DONE = (
     "            if self._len == 0:\n"
@@ -137,10 +142,11 @@ MUTANTS = [
     {"name": "bad-terminator-ends-read", "expect": "R19.3", "edits": [(S, '                    raise OSError("Missing chunk terminating newline")', "                    break")]},
     {"name": "bad-terminator-valueerror", "expect": "R19.3", "edits": [(S, '                    raise OSError("Missing chunk terminating newline")', '                    raise ValueError("Missing chunk terminating newline")')]},
     {"name": "read-not-capped-by-chunk", "expect": "R19.3", "edits": [(S, "n = min(len(buf), self._len)", "n = len(buf)")]},
-    {"name": "residual-decrement-by-full-n", "expect": "R19.3", "edits": [(S, "                    self._len -= len(buf) - read\n", "                    self._len -= n\n")]},
-    {"name": "count-advances-by-n-on-partial", "expect": "R19.3", "edits": [(S, "                    read = len(buf)\n", "                    read += n\n")]},
-    {"name": "store-at-buffer-start", "expect": "R19.3", "edits": [(S, "buf[read : read + n] = self._rfile.read(n)", "buf[:n] = self._rfile.read(n)")]},
-    {"name": "partial-branch-requests-n", "expect": "R19.3", "edits": [(S, "buf[read:] = self._rfile.read(len(buf) - read)", "buf[read:] = self._rfile.read(n)")]},
+    {"name": "residual-decrement-by-full-n", "expect": "R19.3", "edits": [(S, "                if read + n > len(buf):\n                    n = len(buf) - read\n\n                data = self._rfile.read(n)\n", "                k = min(n, len(buf) - read)\n                data = self._rfile.read(k)\n"), (S, "                if len(data) != n:\n", "                if len(data) != k:\n"), (S, "                buf[read : read + n] = data\n                self._len -= n\n                read += n\n", "                buf[read : read + k] = data\n                self._len -= n\n                read += k\n")]},
+    {"name": "count-advances-by-n-on-partial", "expect": "R19.3", "edits": [(S, "                if read + n > len(buf):\n                    n = len(buf) - read\n\n                data = self._rfile.read(n)\n", "                k = min(n, len(buf) - read)\n                data = self._rfile.read(k)\n"), (S, "                if len(data) != n:\n", "                if len(data) != k:\n"), (S, "                buf[read : read + n] = data\n                self._len -= n\n                read += n\n", "                buf[read : read + k] = data\n                self._len -= k\n                read += n\n")]},
+    {"name": "store-at-buffer-start", "expect": "R19.3", "edits": [(S, "buf[read : read + n] = data", "buf[:n] = data")]},
+    {"name": "short-read-spliced-unchecked", "expect": "R19.3", "edits": [(S, "                if len(data) != n:\n                    raise OSError(\"Unexpected end of chunked data\")\n\n", "")]},
+    {"name": "short-read-spliced-old-shape", "expect": "R19.3", "edits": [(S, _COPY, "                if read + n > len(buf):\n                    buf[read:] = self._rfile.read(len(buf) - read)\n                    self._len -= len(buf) - read\n                    read = len(buf)\n                else:\n                    buf[read : read + n] = self._rfile.read(n)\n                    self._len -= n\n                    read += n\n")]},
     {"name": "header-read-every-iteration", "expect": "R19.3", "edits": [(S,
         "            if self._len == 0:\n"
         "                # This is the first chunk or we fully consumed the previous\n"
@@ -201,14 +207,18 @@ TWINS = [
         "                self.wfile.write(data)\n")]},
     {"name": "copy-branches-merged-correctly", "edits": [(S, _COPY,
         "                end = min(read + n, len(buf))\n"
-        "                buf[read:end] = self._rfile.read(end - read)\n"
+        "                data = self._rfile.read(end - read)\n"
+        "                if len(data) != end - read:\n"
+        "                    raise OSError(\"Unexpected end of chunked data\")\n"
+        "                buf[read:end] = data\n"
         "                self._len -= end - read\n"
         "                read = end\n")]},
     {"name": "copy-size-computed-first", "edits": [(S, _COPY,
-        "                if read + n > len(buf):\n"
-        "                    n = len(buf) - read\n"
-        "\n"
-        "                buf[read : read + n] = self._rfile.read(n)\n"
+        "                n = min(n, len(buf) - read)\n"
+        "                data = self._rfile.read(n)\n"
+        "                if len(data) < n:\n"
+        "                    raise OSError(\"Unexpected end of chunked data\")\n"
+        "                buf[read : read + n] = data\n"
         "                read += n\n"
         "                self._len -= n\n")]},
     {"name": "size-reader-early-return", "edits": [(S, '        if _len < 0:\n            raise OSError("Negative chunk length not allowed")\n        return _len\n', '        if _len >= 0:\n            return _len\n\n        raise OSError("Negative chunk length not allowed")\n')]},
